@@ -408,6 +408,7 @@ fn apply_real(c: &mut Option<FastOps>, m: &Mut) {
     }
 }
 
+#[allow(unexpected_cfgs)]
 fn drain_pool_log() {
     #[cfg(qmc_verif)]
     {
